@@ -476,7 +476,15 @@ pub fn c18(em: &mut Emit, thorough: bool, _seed: u64) {
         em.case("FILENEW kind=regular", if r { "ACCEPTED" } else { "REFUSED" },
             &pred(r, || "regular file refused".into()), "kind:regular");
     }
-    // --- through `serve` with Range headers, also with truncation => aborted body
+    serve_over_files(em);
+}
+
+/// `serve` over real `ChunkedReadFile` entities with Range headers (also with the file truncated
+/// after the response head => an aborted body): the response head against the model, the body
+/// against the file. Part of C18's suite and, for the bytes-versus-headers clauses, of C02's.
+pub fn serve_over_files(em: &mut Emit) {
+    let rt = rt();
+    let tmp = tempfile::tempdir().unwrap();
     for &size in &[65537u64, 200001] {
         let path = tmp.path().join(format!("f{}", size));
         for (range, a, b) in [
@@ -484,6 +492,9 @@ pub fn c18(em: &mut Emit, thorough: bool, _seed: u64) {
             ("bytes=65535-65536", 65535, 65537),
             ("bytes=-1", size - 1, size),
             ("bytes=1-131072", 1, (131073).min(size)),
+            // longer than one read, not a multiple of the read size, ending before the end
+            ("bytes=10-65555", 10, (65556).min(size)),
+            ("bytes=100-65635", 100, (65636).min(size)),
         ] {
             for truncate in [false, true] {
                 write_file(&path, size);
@@ -564,7 +575,7 @@ pub fn c18(em: &mut Emit, thorough: bool, _seed: u64) {
                     e.headers = ent_headers.clone();
                     let (hdrs, now) = head;
                     em.case(
-                        &serve_line(&q, &e, now),
+                        &format!("{} src=file", serve_line(&q, &e, now)),
                         &format!(
                             "{} hdrs={} plan=unknown:file calls=",
                             status,
